@@ -82,7 +82,7 @@ PROPS = {
     ),
     "C16": dict(
         # Props.GoMessageSet: the model's batch check + stamp (offsets, concurrency-control decision) = the translated body of newMessageSetFromProto
-        lean_modules=["Liftbridge.Props.C16", "Liftbridge.Props.C16Seq", "Liftbridge.Props.GoMessageSet", "Liftbridge.Props.GoAck", "Liftbridge.Props.GoAppendTop"],
+        lean_modules=["Liftbridge.Props.C16", "Liftbridge.Props.C16Seq", "Liftbridge.Props.GoMessageSet", "Liftbridge.Props.GoAck", "Liftbridge.Props.GoAppendTop", "Liftbridge.Props.GoNatsMsg", "Liftbridge.Props.GoStreamConfig"],
         gen_sources=LOG_SOURCES + ["server/partition.go:partition.messageProcessingLoop", "server/api.go:apiServer.ensurePublishPreconditions"],
         runs=[dict(go_pkg="./server/commitlog", test="TestVerifC16"), dict(go_pkg="./server", test="TestVerifC16Server"), dict(go_pkg="./server", test="TestVerifC16Restore"), dict(go_pkg="./server", test="TestVerifC16Subjects")],
         level="proof",
@@ -270,7 +270,7 @@ PROPS = {
     "C04": dict(
         # Props.GoPartition: a replica (re-)added to the ISR starts with recorded offset -1 (go_AddToISR), the persisted set = the runtime set
         # Props.GoCommit: the minimum the commit loop sets the HW to (min, updateLatestOffset, updateISRLatestOffset) = the model's goMin / updateOffset
-        lean_modules=["Liftbridge.Props.C04", "Liftbridge.Props.C04Pipeline", "Liftbridge.Props.GoPartition", "Liftbridge.Props.GoCommit", "Liftbridge.Props.GoAck"],
+        lean_modules=["Liftbridge.Props.C04", "Liftbridge.Props.C04Pipeline", "Liftbridge.Props.GoPartition", "Liftbridge.Props.GoCommit", "Liftbridge.Props.GoAck", "Liftbridge.Props.GoStreamConfig"],
         gen_sources=["server/partition.go", "server/replicator.go", "server/metadata.go", "server/commitlog/commitlog.go", "server/commitlog/leader_epoch_cache.go"],
         runs=[dict(go_pkg="./server", test="TestVerifC04Pipeline"),
               dict(go_pkg="./server/commitlog", test="TestVerifC04"), dict(go_pkg="./server", test="TestVerifC04Cluster"),
